@@ -428,6 +428,14 @@ pub fn run(rep: &Report, property: &str) -> i32 {
                         let mut r2 = st.refs.clone();
                         let ref_ok = r2.unify(a, b);
                         // real code on a clone of the scratch table
+                        drive::trace_case(|| {
+                            format!(
+                                "relate(Invariant, {}, {}) after history {:?}",
+                                show(a),
+                                show(b),
+                                st.history.iter().map(|(x, y, ok)| (show(&terms[*x]), show(&terms[*y]), *ok)).collect::<Vec<_>>()
+                            )
+                        });
                         let mut t2 = scratch.clone();
                         let res = drive::guarded(|| {
                             t2.relate(ChalkIr, &*bridge.program, &env, Variance::Invariant, &ta, &tb)
